@@ -1023,6 +1023,7 @@ pub fn run(seed: u64, profile: &ConcProfile, replay: Option<Vec<u16>>) -> RunRep
         "witness.matched".into(), (witness_ok == Some(true)) as u64
     );
     seams::enable(false);
+    report.tasks_run = hooks::state().tasks_claimed;
     report.kv_mutations = kv_a;
     report.fs_mutations = fs_a;
     report.ops = thread_ops.iter().flatten().cloned().collect();
